@@ -675,3 +675,129 @@ func init() {
 func obTrivial(rule, key, pos, detail string) (o reportOb) {
 	return reportOb{Rule: rule, Key: rule + ":" + key, Pos: pos, Status: "held", Detail: detail, Trivial: true}
 }
+
+func normName(s string) string {
+	s = strings.ToLower(s)
+	s = strings.TrimPrefix(s, "get")
+	s = strings.ReplaceAll(s, "_", "")
+	return s
+}
+
+func init() {
+	register(&Rule{ID: "S2.name", Min: 40, Text: "no misdirected source in the encoders: when the converter stores into protobuf field F of a data-plane message a value obtained from a model accessor or field A (possibly through one conversion call such as ToTimeTicket), and the model type A was read from also has an accessor or field named exactly like F, then A must be that one — e.g. the position stamps of array slots (PositionCreatedAt, PositionMovedAt) are fed from the slot's position accessors, never from the element's CreatedAt",
+		Run: func(x *Ctx) {
+			msgs := map[*types.Named]bool{}
+			for _, m := range x.messageClosure("ChangePack", "Snapshot") {
+				msgs[m] = true
+			}
+			n := 0
+			var pairs []string
+			for _, fn := range x.P.FuncsIn(convPkg) {
+				root := fn
+				for root.Parent() != nil {
+					root = root.Parent()
+				}
+				if !(strings.HasPrefix(root.Name(), "to") || strings.HasPrefix(root.Name(), "To")) {
+					continue
+				}
+				for _, b := range fn.Blocks {
+					for _, ins := range b.Instrs {
+						st, ok := ins.(*ssa.Store)
+						if !ok {
+							continue
+						}
+						fa, ok := st.Addr.(*ssa.FieldAddr)
+						if !ok {
+							continue
+						}
+						m := x.apiStruct(fa.X.Type())
+						if m == nil || !msgs[m] {
+							continue
+						}
+						f := prog.FieldVar(fa)
+						if f == nil || !f.Exported() {
+							continue
+						}
+						// the source name: a model accessor call or field, looking through one converter call
+						src := ""
+						var srcRecv types.Type
+						v := prog.Strip(st.Val)
+						for depth := 0; depth < 3 && src == ""; depth++ {
+							switch t := v.(type) {
+							case *ssa.Call:
+								o := prog.CallObj(t)
+								name := ""
+								if t.Call.IsInvoke() {
+									name = t.Call.Method.Name()
+								} else if o != nil {
+									name = o.Name()
+								}
+								inConv := o != nil && o.Pkg() != nil && strings.HasSuffix(o.Pkg().Path(), "/"+convPkg)
+								if inConv && len(t.Call.Args) >= 1 {
+									v = prog.Strip(t.Call.Args[0])
+									continue
+								}
+								if o != nil && o.Pkg() != nil && strings.Contains(o.Pkg().Path(), "/pkg/document/") {
+									src = name
+									if r := recvOf(t); r != nil {
+										srcRecv = r.Type()
+									}
+								}
+								depth = 3
+							case *ssa.UnOp:
+								if fl := prog.LoadedField(t); fl != nil && fl.Pkg() != nil && strings.Contains(fl.Pkg().Path(), "/pkg/document/") {
+									src = fl.Name()
+									if bs := prog.FieldBase(t); bs != nil {
+										srcRecv = bs.Type()
+									}
+								}
+								depth = 3
+							case *ssa.Extract:
+								v = t.Tuple
+							default:
+								depth = 3
+							}
+						}
+						if src == "" {
+							continue
+						}
+						n++
+						F, A := normName(f.Name()), normName(src)
+						ok2 := true
+						better := ""
+						if F != A && srcRecv != nil {
+							// does the source's type offer something named exactly like the field?
+							srcT := v.Type()
+							ms := types.NewMethodSet(srcRecv)
+							for i := 0; i < ms.Len(); i++ {
+								mo := ms.At(i).Obj()
+								sig, isSig := mo.Type().(*types.Signature)
+								if normName(mo.Name()) == F && mo.Exported() && isSig && sig.Params().Len() == 0 && sig.Results().Len() == 1 && types.Identical(sig.Results().At(0).Type(), srcT) {
+									better = mo.Name() + "()"
+								}
+							}
+							t := srcRecv
+							if p, isP := t.(*types.Pointer); isP {
+								t = p.Elem()
+							}
+							if stt, isS := t.Underlying().(*types.Struct); isS {
+								for i := 0; i < stt.NumFields(); i++ {
+									if normName(stt.Field(i).Name()) == F && stt.Field(i).Exported() && types.Identical(stt.Field(i).Type(), srcT) {
+										better = stt.Field(i).Name()
+									}
+								}
+							}
+							if better != "" {
+								ok2 = false
+							}
+						}
+						pairs = append(pairs, m.Obj().Name()+"."+f.Name()+"<-"+src)
+						k := fmt.Sprintf("func=%s field=%s.%s source=%s", prog.FnName(root), m.Obj().Name(), f.Name(), src)
+						x.check(ok2, k, x.pos(st), "no better-named source on the same object",
+							"protobuf field "+m.Obj().Name()+"."+f.Name()+" is fed from "+src+" although the same object offers "+better+": the wrong stamp is written (for array slots: an element identity where the slot's position identity belongs makes the decoded list lose the position key)")
+					}
+				}
+			}
+			x.C.Count("encoder field<-accessor pairs", n)
+		}})
+}
